@@ -261,7 +261,7 @@ def gen_c08_case(rng: random.Random) -> Dict[str, Any]:
         is_dep = pos in dep_positions
         kwonly = kwonly_from is not None and pos >= kwonly_from
         if is_dep:
-            kind = rng.choice(["ctx", "dep", "dep_ann"])
+            kind = rng.choice(["ctx", "dep", "dep_ann", "dep_int"])
             params.append({"name": f"d{pos}", "dep": kind, "kwonly": kwonly, "default": True})
             if not kwonly:
                 had_default = True
@@ -294,6 +294,10 @@ def gen_c08_case(rng: random.Random) -> Dict[str, Any]:
             # the caller binds a value to a parameter that has a dependency default: the sent value must win
             supplied[p["name"]] = {"v": rng.choice(["sent-value", "", "0", "dep-value-not"]), "pos": False}
             continue
+        if p.get("dep") == "dep_int" and rng.random() < 0.3:
+            # ... and is converted to the annotation like any other sent value
+            supplied[p["name"]] = {"v": gen_value_for(rng, "int"), "pos": False}
+            continue
         if p.get("dep"):
             continue
         pos_idx = positional_ok.index(p["name"]) if p["name"] in positional_ok else None
@@ -319,11 +323,15 @@ def _dep_plain() -> str:
     return "dep-value"
 
 
+def _dep_int() -> int:
+    return 7
+
+
 def build_fn(case: Dict[str, Any]) -> Any:
     ns: Dict[str, Any] = {"Any": Any, "List": List, "Optional": Optional, "Dict": Dict, "Union": Union, "Model": Model,
                           "Inner": Inner, "DC": DC, "DC2": DC2, "Context": Context, "PayloadI": PayloadI,
                           "PayloadS": PayloadS, "PayloadL": PayloadL, "RowI": RowI, "RowS": RowS, "TaskiqDepends": TaskiqDepends,
-                          "_REC": _REC, "_dep_plain": _dep_plain, "int": int, "str": str, "float": float, "bool": bool}
+                          "_REC": _REC, "_dep_plain": _dep_plain, "_dep_int": _dep_int, "int": int, "str": str, "float": float, "bool": bool}
     parts = []
     star_done = False
     names = []
@@ -338,6 +346,9 @@ def build_fn(case: Dict[str, Any]) -> Any:
             names.append(p["name"])
         elif p.get("dep") == "dep_ann":
             parts.append(f"{p['name']}: str = TaskiqDepends(_dep_plain)")
+            names.append(p["name"])
+        elif p.get("dep") == "dep_int":
+            parts.append(f"{p['name']}: int = TaskiqDepends(_dep_int)")
             names.append(p["name"])
         else:
             a = "" if p["ann"] == "none" else f": {p['ann']}"
@@ -479,7 +490,10 @@ def _run_c08_inner(case: Dict[str, Any], fn: Any, src: str, broker: Any, early_r
         s = case["supplied"].get(p["name"])
         if p.get("dep"):
             # dependency parameter: the resolved dependency unless the caller sent a value
-            want = "dep-value" if s is None else expected_value("str" if p["dep"] == "dep_ann" else "none", dec(s["v"]), case["fmt"], case["validate"])
+            if p["dep"] == "dep_int":
+                want = 7 if s is None else expected_value("int", dec(s["v"]), case["fmt"], case["validate"])
+            else:
+                want = "dep-value" if s is None else expected_value("str" if p["dep"] == "dep_ann" else "none", dec(s["v"]), case["fmt"], case["validate"])
         elif s is None:
             want = "DEFAULT"
         else:
